@@ -53,7 +53,11 @@ def strategy(tier):
     burst = st.tuples(tm, st.integers(1, 5), st.sampled_from([0, 0, 1, 2, -1, -3])).map(list)
     req = st.builds(lambda t, T, N, a, steal, refuse: dict({"t": t, "T": T, "N": N, "answer": a, "shadow": steal}, **({"refused": True} if refuse else {})),
                     tm, st.sampled_from([1.0, 1.0, 2.5, 4.0]), st.integers(0, 6),
-                    st.one_of(st.none(), st.integers(0, 400).map(lambda x: x / 20.0)), st.sampled_from([False, False, False, True]),
+                    # the answer: never / at a generated time / just after the k-th timeout has elapsed (a late answer that meets the
+                    # engine iteration in which the request also looks timed out)
+                    st.one_of(st.none(), st.integers(0, 400).map(lambda x: x / 20.0),
+                              st.tuples(st.just("late"), st.integers(1, 2), st.sampled_from([0.005, 0.015, 0.025, 0.035, 0.045])).map(list)),
+                    st.sampled_from([False, False, False, True]),
                     st.sampled_from([False, False, False, True]))
     flood = st.tuples(tm, st.integers(5, 40), st.sampled_from([1, 2, 5, 10, 19, 21])).map(list)   # k datagrams gap ms apart: fast engine iterations
     engine = st.builds(lambda h, d, b, r, f: {"part": "engine", "handlers": h, "datagrams": sorted(d), "bursts": sorted(b)[:2], "requests": r, "floods": f},
@@ -158,7 +162,12 @@ def _part_engine(res, case):
             T, N = float(r["T"]), int(r["N"])
             if T < 1.0 or not (0 <= N <= 10):
                 raise InvalidCase(case)
-            reqs.append({"id": f"r{j}", "t": float(r["t"]), "T": T, "N": N, "answer": r.get("answer"), "shadow": bool(r.get("shadow")), "refused": bool(r.get("refused")),
+            ans = r.get("answer")
+            if isinstance(ans, (list, tuple)):
+                if ans[0] != "late":
+                    raise InvalidCase(case)
+                ans = int(ans[1]) * T + float(ans[2])
+            reqs.append({"id": f"r{j}", "t": float(r["t"]), "T": T, "N": N, "answer": ans, "shadow": bool(r.get("shadow")), "refused": bool(r.get("refused")),
                          "verb": b"RPLY%d" % j, "h": None, "created": None, "failed": [], "gone_at": None})
         # datagram script
         n = 0
